@@ -1021,6 +1021,27 @@ def np_sum(E, args, node):
     raise Unsupported('np.sum(%r)' % (v,))
 
 
+@libfn('numpy.round')
+def np_round(E, args, node):
+    """np.round(x, d) for a real scalar: a multiple of 10**-d nearest to x (ties either way; machine arithmetic treated as
+    mathematical) - linear, so integer-versus-bound comparisons stay decidable"""
+    v = args.get(0, 'a')
+    d = args.get(1, 'decimals') if (len(args.pos) > 1 or 'decimals' in args.kw) else 0
+    if not isinstance(d, int) or isinstance(d, bool) or d < 0 or d > 12:
+        raise Unsupported('np.round decimals=%r' % (d,))
+    if isinstance(v, (int, float)) and not isinstance(v, bool):
+        return float(round(v, d))
+    if isinstance(v, Z) and v.ty == INT:
+        return Z(z3.ToReal(v.t), REAL)
+    if isinstance(v, Z) and v.ty == REAL:
+        scale = z3.RealVal(10 ** d)
+        K = z3.Int(fresh_name('round%d' % d))
+        half = z3.RealVal('1/2')
+        E.assume(z3.And(z3.ToReal(K) - half <= v.t * scale, v.t * scale <= z3.ToReal(K) + half))
+        return Z(z3.ToReal(K) / scale, REAL)
+    raise Unsupported('np.round(%r)' % (v,))
+
+
 @libfn('numpy.abs')
 def np_abs(E, args, node):
     v = args.pos[0]
@@ -1094,6 +1115,17 @@ def pd_concat(E, args, node):
                     raise Unsupported('duplicate column %s in concat' % c)
                 cols[c] = E.snapshot(a, kind='series')
         return Frame(E.new_ident(), n, cols)
+    if axis == 1 and items and all(isinstance(a, Arr) and a.kind == 'series' and (getattr(a, 'meta', None) or {}).get('name')
+                                   for a in items):
+        n = items[0].n
+        cols = {}
+        for a in items:
+            E.oblige('lib-pre', _eq_len(n, a.n), node, 'concat(axis=1): equal number of rows')
+            c = a.meta['name']
+            if c in cols:
+                raise Unsupported('duplicate column %s in concat' % c)
+            cols[c] = E.snapshot(a, kind='series')
+        return Frame(E.new_ident(), n if not isinstance(n, int) else z3.IntVal(n), cols)
     raise Unsupported('pd.concat variant')
 
 
@@ -1246,6 +1278,22 @@ def frame_drop(E, f, args, node):
             raise RaiseSig('KeyError', node, str(nme))
     cols = {c: E.snapshot(a, kind='series') for c, a in f.cols.items() if c not in names}
     return Frame(E.new_ident(), f.n, cols)
+
+
+@method('Frame.pop')
+def frame_pop(E, f, args, node):
+    """DataFrame.pop(col): removes the column from the table IN PLACE and returns it as a Series named col"""
+    nme = args.pos[0] if args.pos else args.kw.get('item')
+    if not isinstance(nme, str):
+        raise Unsupported('pop of a symbolic label')
+    if nme not in f.cols:
+        raise RaiseSig('KeyError', node, str(nme))
+    E.mutate(f.ident, node, 'DataFrame.pop')
+    a = f.cols[nme]
+    f.cols = {c: x for c, x in f.cols.items() if c != nme}
+    r = E.snapshot(a, kind='series')
+    r.meta = dict(getattr(r, 'meta', None) or {}, name=nme)
+    return r
 
 
 @method('str.startswith')
